@@ -15,7 +15,7 @@ Definition cfg_plain_rdp : config := mkConfig 0 false false false 3 false.
 
 Definition tls_run : list tev :=
   [RawWrite (CR 3 0); TlsStart true; TlsWrite (CI 366 1); TlsWrite ED; TlsWrite AU; TlsWrite (CJ 3 1003); TlsWrite (CJ 3 1004);
-   TlsWrite (INFO 3 1003 38)].
+   TlsWrite (INFO 3 1003 228)].
 
 Lemma ex_negotiations :
   (* SSL selected, trusted certificate, checking on: connects, everything after the request inside TLS *)
@@ -34,7 +34,7 @@ Lemma ex_negotiations :
   s_ev (snd (negotiate_impl Debug true true cfg_nla_check (ex_cc_hybrid :: ex_rest) ex_rest)) = [RawWrite (CR 3 0); TlsStart true; TlsWrite CSSP] /\
   (* plain RDP security requested explicitly (not reachable through Connector): the Client Info travels in clear *)
   (exists r, fst (negotiate_impl Debug true true cfg_plain_rdp (ex_cc :: ex_rest) ex_rest) = Ok r) /\
-  In (RawWrite (INFO 3 1003 38)) (s_ev (snd (negotiate_impl Debug true true cfg_plain_rdp (ex_cc :: ex_rest) ex_rest))).
+  In (RawWrite (INFO 3 1003 228)) (s_ev (snd (negotiate_impl Debug true true cfg_plain_rdp (ex_cc :: ex_rest) ex_rest))).
 Proof.
   split; [eexists; vm_compute; reflexivity|].
   repeat (split; [vm_compute; reflexivity|]).
